@@ -415,3 +415,27 @@ Theorem partial_model_utf8 dbg idna : IdnaOK idna -> forall input base sbase,
     (parse_url dbg (host_parse idna) host_parse_opaque host_display (Some utf8_encode) base input)
     (spec_basic_url_parse (spec_host_parser idna) input sbase).
 Proof. intros HI input base sbase Hu Hb Hc. rewrite parse_url_utf8_override. apply partial_model; assumption. Qed.
+
+(* IdnaOK is satisfiable (for the non-vacuity examples): the identity on ASCII strings without denied
+   characters *)
+Definition ex_clean_char (c : N) : bool := (c <? 128) && negb (memb c T_HOST_IDNA_DENIED).
+Definition ex_idna_clean (bs : list N) : option (list N) := if forallb ex_clean_char bs then Some bs else None.
+
+Lemma ex_digit_dot_clean_sweep : all_below 128 (fun c => negb (is_digit c || (c =? 46)) || ex_clean_char c) = true.
+Proof. vm_compute. reflexivity. Qed.
+
+Example ex_idna_clean_ok : IdnaOK ex_idna_clean.
+Proof.
+  constructor.
+  - intros bs d H. unfold ex_idna_clean in H. destruct (forallb ex_clean_char bs) eqn:E; inversion H; subst.
+    apply Forall_forall. intros c Hc. rewrite forallb_forall in E. apply E in Hc.
+    unfold ex_clean_char in Hc. unfold dom_char_ok. apply andb_true_iff in Hc. destruct Hc as [H1 H2].
+    split; [lia|]. destruct (memb c T_HOST_IDNA_DENIED); [discriminate|reflexivity].
+  - intros bs d H. unfold ex_idna_clean in *. destruct (forallb ex_clean_char bs) eqn:E; inversion H; subst. now rewrite E.
+  - intros a Ha. unfold ex_idna_clean. destruct (ipv4_display_digits a Ha) as (Hd & _).
+    replace (forallb ex_clean_char (ipv4_display a)) with true; [reflexivity|]. symmetry.
+    apply forallb_forall. intros c Hc. rewrite Forall_forall in Hd. specialize (Hd c Hc).
+    assert (c < 128) as L by (destruct Hd as [Hd| ->]; [unfold is_digit in Hd|]; lia).
+    pose proof (all_below_spec 128 _ ex_digit_dot_clean_sweep c L) as S. cbv beta in S.
+    destruct Hd as [Hd| ->]; [rewrite Hd in S; exact S|exact S].
+Qed.
